@@ -39,6 +39,19 @@ pub struct Sc {
     /// Both results must be right.
     #[serde(default)]
     pub nested: Option<Box<Nested>>,
+    /// a still earlier call on the same thread whose reader panics after `give`
+    /// bytes; the panic is caught
+    #[serde(default)]
+    pub panicked: Option<Box<PanicCall>>,
+}
+
+#[derive(Clone, Debug, Serialize, Deserialize)]
+pub struct PanicCall {
+    pub mode: Mode,
+    pub alg: usize,
+    #[serde(with = "esc")]
+    pub data: Vec<u8>,
+    pub give: usize,
 }
 
 #[derive(Clone, Debug, Serialize, Deserialize)]
@@ -268,10 +281,10 @@ fn gen_script(rng: &mut Rng, data: &[u8]) -> Vec<ReadStep> {
         // an EINTR storm: hundreds of consecutive interruptions are still only
         // interruptions
         let at = rng.urange(0, script.len());
-        let n = rng.urange(120, 600);
-        for _ in 0..n {
-            script.insert(at, ReadStep::Intr);
-        }
+        // (rarely beyond 65535 in a row: a retry counter may be narrow)
+        let n = if rng.chance(1, 25) { *rng.pick(&[65_535usize, 65_536, 65_537, 70_000]) } else { rng.urange(120, 600) };
+        let storm = vec![ReadStep::Intr; n];
+        script.splice(at..at, storm);
     }
     if rng.chance(1, 4) {
         let kind = *rng.pick(&ErrKind::ALL);
@@ -441,10 +454,42 @@ impl Property for C13 {
             names,
             prelude,
             nested,
+            panicked: if rng.chance(1, 8) {
+                let pmode = if rng.chance(2, 3) { Mode::Patch } else { Mode::File };
+                let data: Vec<u8> = rng
+                    .pick(&[
+                        &b"+an ordinary line, cut before its end"[..],
+                        &b"$NetBSD: patch-aa,v 1.1 2024/01/01 00:00:00 cut"[..],
+                        &b"first\nsecond line, cut"[..],
+                        &b"x"[..],
+                        &b"$NetBSD$\n+kept\n-cut"[..],
+                    ])
+                    .to_vec();
+                let give = if rng.chance(1, 2) { data.len() } else { rng.urange(1, data.len()) };
+                Some(Box::new(PanicCall {
+                    mode: pmode,
+                    alg: rng.usize_below(6),
+                    data,
+                    give,
+                }))
+            } else {
+                None
+            },
         }
     }
 
     fn execute(&self, sc: &Sc, ctx: &mut Ctx) -> Outcome {
+        if let Some(pc) = &sc.panicked {
+            ctx.fault("reader_panicked_in_earlier_call");
+            let alg = ALGS[pc.alg];
+            let mode = pc.mode;
+            call_with_panicking_reader(pc.data.clone(), pc.give, |r| {
+                let _ = match mode {
+                    Mode::File => alg.hash_file(r),
+                    Mode::Patch => alg.hash_patch(r),
+                };
+            });
+        }
         if let Some(pre) = &sc.prelude {
             ctx.probe("earlier-call-on-same-thread");
             let pre_sc = Sc {
@@ -456,6 +501,7 @@ impl Property for C13 {
                 names: vec![],
                 prelude: None,
                 nested: None,
+                panicked: None,
             };
             if let Err(mut v) = one_call(&pre_sc, ctx) {
                 v.detail = format!("(earlier call) {}", v.detail);
